@@ -457,8 +457,11 @@ class Interp:
         if len(e.generators) != 1: raise Unsupported("nested dict comprehension")
         it = self.eval(gen.iter, env)
         items = self.iterate_concrete_or_none(it)
-        if items is None and isinstance(it, SList) and not gen.ifs and isinstance(e.key, ast.Name) and isinstance(gen.target, ast.Name) \
-                and e.key.id == gen.target.id:
+        key_is_elem = isinstance(e.key, ast.Name) and isinstance(gen.target, ast.Name) and e.key.id == gen.target.id
+        # {x.id: ... for x in xs}: ids identify the elements (pairwise distinct: assumption A-UUID), so the dict is keyed by element
+        key_is_elem_id = isinstance(e.key, ast.Attribute) and e.key.attr == "id" and isinstance(e.key.value, ast.Name) \
+            and isinstance(gen.target, ast.Name) and e.key.value.id == gen.target.id
+        if items is None and isinstance(it, SList) and not gen.ifs and (key_is_elem or key_is_elem_id):
             def base(k, it=it, env=env):
                 env2 = dict(env); self.assign(gen.target, it.elem(k), env2)
                 return self.eval(e.value, env2)
@@ -714,7 +717,7 @@ class Interp:
             if name == "id": return PyNum(o.lst.idf(o.j))
             raise Unsupported(f"attribute {name} of a chain element")
         if isinstance(o, QList): return BoundMethod(o, name)
-        if isinstance(o, (Arr, PintAccessor, SDict, SList, list, str, Label, Unit, Opaque, tuple, ILoc)):
+        if isinstance(o, (Arr, PintAccessor, SDict, SList, KDict, list, str, Label, Unit, Opaque, tuple, ILoc)):
             return BoundMethod(o, name)
         if isinstance(o, ClassRef):
             return BoundMethod(o, name)
@@ -1166,6 +1169,9 @@ class Interp:
             if name == "format": return Label(bool(recv))
         if isinstance(recv, Label):
             if name == "replace": return recv
+        if isinstance(recv, KDict) and not recv.overlay:
+            if name == "values": return SList(recv.keys.n, lambda k: recv.base(k), f"values({recv.keys.name})", unordered=recv.keys.unordered)
+            if name == "keys": return recv.keys
         if isinstance(recv, SDict):
             if name == "keys": return list(recv.d.keys())
             if name == "values": return list(recv.d.values())
